@@ -437,7 +437,7 @@ def hist_read(ctx):
                                 bad = 'entry above the fill level reads ring slot %s' % [((x or 0) >> 8) & 0xFF for x in finds]
                     if bad:
                         ctx.ob(P, 'RF1-emcy-histread', f, site, None)
-                        ctx.find(P, 'RF1-emcy-histread', f, 'histread:%s' % bad.split(',')[0][:30], m.loc(f, m.funcs[f].line), '%s: %s' % (site, bad))
+                        ctx.find(P + ['C01'], 'RF1-emcy-histread', f, 'histread:%s' % bad.split(',')[0][:30], m.loc(f, m.funcs[f].line), '%s: %s' % (site, bad))
                     else:
                         ctx.ob(P, 'RF1-emcy-histread', f, site, 'ok')
     f = 'COEmcyHistReset'
@@ -453,7 +453,7 @@ def hist_read(ctx):
             bad = 'cleared entries %s' % [hex(x) if x is not None else None for x in finds]
     if bad:
         ctx.ob(P, 'RF1-emcy-histread', f, 'history reset', None)
-        ctx.find(P, 'RF1-emcy-histread', f, 'histreset', m.loc(f, m.funcs[f].line), 'COEmcyHistReset: %s' % bad)
+        ctx.find(P + ['C01'], 'RF1-emcy-histread', f, 'histreset', m.loc(f, m.funcs[f].line), 'COEmcyHistReset: %s' % bad)
     else:
         ctx.ob(P, 'RF1-emcy-histread', f, 'history reset', 'count, all entries, position and fill level cleared')
 
